@@ -356,6 +356,18 @@ func propPoints(c Case, l geom.Layout) error {
 	if err := within("PointsCentroid", xy.PointsCentroid(pts[0], pts[1:]...), wx, wy, tx, ty, 2); err != nil {
 		return err
 	}
+	// the calculator used directly, points added one by one (as points and as coordinates)
+	pc := xy.NewPointCentroidCalculator()
+	for i, q := range pts {
+		if i%2 == 0 {
+			pc.AddPoint(q)
+		} else {
+			pc.AddCoord(geom.Coord(q.FlatCoords()))
+		}
+	}
+	if err := within("PointCentroidCalculator", pc.GetCentroid(), wx, wy, tx, ty, 2); err != nil {
+		return err
+	}
 	got, err := xy.Centroid(mp)
 	if err != nil {
 		return err
@@ -552,6 +564,18 @@ func propPolygons(c Case, l geom.Layout, polys [][][]pt, what string) error {
 		return err
 	}
 	if err := within(what+"MultiPolygonCentroid", xy.MultiPolygonCentroid(mp), wx, wy, tx, ty, s); err != nil {
+		return err
+	}
+	// the calculator used directly: polygons added one by one, the centroid asked for
+	// after the last (and, in between, after each: it must not disturb the sums)
+	ac := xy.NewAreaCentroidCalculator(l)
+	for i, gp := range gps {
+		ac.AddPolygon(gp)
+		if i+1 < len(gps) {
+			_ = ac.GetCentroid()
+		}
+	}
+	if err := within(what+"AreaCentroidCalculator", ac.GetCentroid(), wx, wy, tx, ty, s); err != nil {
 		return err
 	}
 	got, err := xy.Centroid(mp)
